@@ -565,6 +565,11 @@ void MatrixDeleteRowAt(matrix *m, size_t row)
 {
   size_t i, j, k;
   matrix *c;
+  if(row >= m->row){
+    fprintf(stdout,"MatrixDeleteRowAt Error: row %u out of range.\n", (unsigned int)row);
+    fflush(stdout);
+    return;
+  }
   NewMatrix(&c, m->row, m->col);
   MatrixCopy(m, &c);
   ResizeMatrix(m, c->row-1, c->col);
@@ -590,6 +595,11 @@ void MatrixDeleteColAt(matrix *m, size_t col)
 {
   size_t i, j, k;
   matrix *c;
+  if(col >= m->col){
+    fprintf(stdout,"MatrixDeleteColAt Error: column %u out of range.\n", (unsigned int)col);
+    fflush(stdout);
+    return;
+  }
   NewMatrix(&c, m->row, m->col);
   MatrixCopy(m, &c);
   ResizeMatrix(m, c->row, c->col-1);
